@@ -9,7 +9,7 @@ package main
 // Arguments: geometries of every type (also a LinearRing, empty ones, one without layout, degenerate ones), their
 // encodings - proper, and MALFORMED / truncated ones, so that the decoders' error paths run alone and concurrently
 // (the recorded result is then the error class) - and the other values pure functions take (Bounds, GeoJSON Feature /
-// FeatureCollection / Geometry / CRS, a TreeSet, an intersection Result, one WKT encoder).
+// FeatureCollection / Geometry / CRS, a TreeSet, an intersection Result).
 // Operations: only those documented as pure. Where an API accumulates into or fills an object by contract (a centroid
 // calculator, a sql Scan wrapper, a Feature being unmarshalled, sorting), that object is created per call (sorting: a
 // per-call copy of the coordinates); what is shared are the things it reads.
@@ -55,8 +55,9 @@ import (
 
 // a shared argument: a geometry, its encodings (byte slices / strings handed to the decoders), some coords, and the
 // other kinds of value the library's pure functions take: Bounds, GeoJSON Feature / FeatureCollection / Geometry / CRS
-// values, a WKT encoder, a populated TreeSet, an intersection Result. Everything here is shared between the goroutines
-// of the concurrent pass and is part of snapshot().
+// values, a populated TreeSet, an intersection Result. Everything here is shared between the goroutines
+// of the concurrent pass and is part of snapshot(). (No encoder OBJECT is shared: the statement promises concurrent
+// calls "on the same geometries", not that one encoder value - which may own a scratch buffer - serves many goroutines.)
 type callArg struct {
 	id    string
 	g     geom.T
@@ -78,11 +79,8 @@ type callArg struct {
 	fc    *geojson.FeatureCollection
 	gjG   *geojson.Geometry
 	crs   *geojson.CRS
-	enc   *wkt.Encoder // ONE encoder value used by all goroutines: the struct holds its option only (no per-call state).
-	// It is the one shared value that is NOT part of snapshot(): it is a service object, not data handed to a function;
-	// what it does with its own fields sequentially is left open (a data race on them, or a different result, is not).
-	tree *transform.TreeSet
-	lir  lineintersection.Result
+	tree  *transform.TreeSet
+	lir   lineintersection.Result
 }
 
 func dig(parts ...any) string {
@@ -144,6 +142,29 @@ func errK(err error) string {
 		return "none"
 	}
 	return fmt.Sprintf("%T", err)
+}
+
+// class of a recovered panic: the dynamic type of its value (its text is left open like an error's)
+func panicK(e any) string {
+	return fmt.Sprintf("panic:%T", e)
+}
+
+// canonJSON: the VALUE of a JSON document, not its spelling. An encoder that walks a Go map itself emits the members
+// of an object in another order on every call (sequentially as well); that is not another result. The document is decoded
+// into interface{} and marshalled again by encoding/json, which sorts the keys. What does not parse is kept as it is.
+func canonJSON(b []byte) []byte {
+	if len(b) == 0 {
+		return b
+	}
+	var v interface{}
+	if err := json.Unmarshal(b, &v); err != nil {
+		return b
+	}
+	c, err := json.Marshal(v)
+	if err != nil {
+		return b
+	}
+	return c
 }
 
 // deepWalk appends every field of a value - exported or not, through pointers, slices, maps and interfaces - to b:
@@ -226,7 +247,90 @@ func deepDigest(x any) string {
 	return hex.EncodeToString(sum[:])[:16]
 }
 
-// a Feature: all of its own fields; its geometry by identity when it IS the shared geometry (walked already)
+const geomPkg = "github.com/twpayne/go-geom"
+
+// pubWalk: what a value that is NOT a geometry shows through its exported fields (an internal, synchronised memo in an
+// unexported field is no modification of an argument anybody can see). Geometries and Bounds met on the way - values of
+// package geom - are still walked in full (deepWalk): "never modify the geometries" covers everything they hold.
+func pubWalk(b []byte, v reflect.Value, depth int) []byte {
+	if depth > 400 {
+		return b
+	}
+	switch v.Kind() {
+	case reflect.Ptr, reflect.Interface:
+		if v.IsNil() {
+			return append(b, "nil;"...)
+		}
+		b = append(b, '*')
+		return pubWalk(b, v.Elem(), depth+1)
+	case reflect.Struct:
+		if v.Type().PkgPath() == geomPkg {
+			return deepWalk(b, v, depth)
+		}
+		b = append(b, '{')
+		for i := 0; i < v.NumField(); i++ {
+			if !v.Type().Field(i).IsExported() {
+				continue
+			}
+			b = append(b, byte('a'+i), ':')
+			b = pubWalk(b, v.Field(i), depth+1)
+		}
+		return append(b, '}')
+	case reflect.Slice, reflect.Array:
+		if v.Kind() == reflect.Slice && v.IsNil() {
+			return append(b, "nilslice;"...)
+		}
+		if k := v.Type().Elem().Kind(); k == reflect.Float64 || k == reflect.Uint8 {
+			return deepWalk(b, v, depth)
+		}
+		n := v.Len()
+		b = binary.LittleEndian.AppendUint32(append(b, '['), uint32(n))
+		for i := 0; i < n; i++ {
+			b = pubWalk(b, v.Index(i), depth+1)
+		}
+		return b
+	case reflect.Map:
+		if v.IsNil() {
+			return append(b, "nilmap;"...)
+		}
+		keys := v.MapKeys()
+		sort.Slice(keys, func(i, j int) bool { return fmt.Sprint(keys[i]) < fmt.Sprint(keys[j]) })
+		b = binary.LittleEndian.AppendUint32(append(b, 'm'), uint32(len(keys)))
+		for _, k := range keys {
+			b = pubWalk(b, k, depth+1)
+			b = append(b, '=')
+			b = pubWalk(b, v.MapIndex(k), depth+1)
+		}
+		return b
+	}
+	return deepWalk(b, v, depth) // scalars and strings
+}
+
+func pubDigest(x any) string {
+	sum := sha1.Sum(pubWalk(make([]byte, 0, 1024), reflect.ValueOf(x), 0))
+	return hex.EncodeToString(sum[:])[:16]
+}
+
+// a TreeSet shows its contents through ToFlatArray only, an intersection Result through its three accessors
+func treeDigest(t *transform.TreeSet) string {
+	if t == nil {
+		return "nil"
+	}
+	return fmt.Sprint(sub(func() any { return dig(t.ToFlatArray()) }))
+}
+
+func lirDigest(r *lineintersection.Result) string {
+	return fmt.Sprint(sub(func() any {
+		parts := []any{r.HasIntersection(), int(r.Type())}
+		for _, c := range r.Intersection() {
+			parts = append(parts, c)
+		}
+		return dig(parts...)
+	}))
+}
+
+// a Feature: its exported fields (the geometry and the Bounds in full, they are geometries' values); its geometry by
+// identity when it IS the shared geometry (walked already)
 func (a *callArg) featDigest(f *geojson.Feature) string {
 	if f == nil {
 		return "nil"
@@ -235,10 +339,12 @@ func (a *callArg) featDigest(f *geojson.Feature) string {
 	if f.Geometry != a.g {
 		gd = deepDigest(f.Geometry)
 	}
-	return dig(f.ID, deepDigest(f.BBox), deepDigest(f.Properties), gd)
+	return dig(f.ID, deepDigest(f.BBox), pubDigest(f.Properties), gd)
 }
 
 // snapshot: everything a call could have modified in its argument, plus the exported package-level variables.
+// Geometries (geom.T values) and Bounds: every field, exported or not. The other values (GeoJSON Geometry / CRS / Feature /
+// FeatureCollection, TreeSet, intersection Result): what their public API shows (exported fields, accessor results).
 // One short digest per component (geometry, encodings, coordinates, bounds, features, other values, package variables),
 // so that a deviation names the component.
 func (a *callArg) snapshot() string {
@@ -264,7 +370,7 @@ func (a *callArg) snapshot() string {
 		fmt.Sprint(wkt.ErrBraceMismatch))
 	return "g:" + short(dig(geomDigest(a.g), deepDigest(a.g))) + ",e:" + short(enc) + ",c:" + short(dig(cp...)) +
 		",b:" + short(dig(deepDigest(a.bnd), deepDigest(a.bnd2))) + ",f:" + short(dig(fparts...)) +
-		",o:" + short(dig(deepDigest(a.gjG), deepDigest(a.crs), deepDigest(a.tree), deepDigest(a.lir))) +
+		",o:" + short(dig(pubDigest(a.gjG), pubDigest(a.crs), treeDigest(a.tree), lirDigest(&a.lir))) +
 		",v:" + short(pkg)
 }
 
@@ -337,25 +443,29 @@ func flatOfT(g geom.T) ([]float64, bool) {
 func sub(f func() any) (r any) {
 	defer func() {
 		if e := recover(); e != nil {
-			r = "panic:" + fmt.Sprint(e)
+			r = panicK(e)
 		}
 	}()
 	return f()
 }
 
-// scanAll scans src into each (FRESH) sql wrapper: error class and the geometry the wrapper holds afterwards
+// scanAll scans src into each (FRESH) sql wrapper: the geometry the wrapper holds afterwards, or - when Scan reports an
+// error - the error class alone (what a receiver holds after a failed decode is left open)
 func scanAll(src any, ws ...interface{ Scan(any) error }) []any {
 	var parts []any
 	for _, w := range ws {
 		w := w
 		parts = append(parts, sub(func() any {
 			err := w.Scan(src)
+			if err != nil {
+				return "err:" + errK(err)
+			}
 			f := reflect.ValueOf(w).Elem().Field(0) // the embedded geometry
 			var g geom.T
 			if !f.IsNil() {
 				g, _ = f.Interface().(geom.T)
 			}
-			return errK(err) + "/" + geomDigest(g)
+			return "none/" + geomDigest(g)
 		}))
 	}
 	return parts
@@ -375,7 +485,7 @@ func callOps() []callOp {
 		return func(a *callArg) (r string) {
 			defer func() {
 				if e := recover(); e != nil {
-					r = "panic:" + fmt.Sprint(e)
+					r = panicK(e)
 				}
 			}()
 			return f(a)
@@ -496,28 +606,28 @@ func callOps() []callOp {
 		}},
 		{"wkt.Marshal", func(a *callArg) string {
 			s, err := wkt.Marshal(a.g)
-			s2, _ := wkt.Marshal(a.g, wkt.EncodeOptionWithMaxDecimalDigits(2))
-			return dig(s, s2, fmt.Sprint(err))
+			s2, err2 := wkt.Marshal(a.g, wkt.EncodeOptionWithMaxDecimalDigits(2))
+			return dig(s, s2, errK(err), errK(err2))
 		}},
 		{"wkb.Marshal", func(a *callArg) string {
 			b, err := wkb.Marshal(a.g, wkb.NDR, wkbcommon.WKBOptionEmptyPointHandling(wkbcommon.EmptyPointHandlingNaN))
-			b2, _ := wkb.Marshal(a.g, wkb.XDR, wkbcommon.WKBOptionEmptyPointHandling(wkbcommon.EmptyPointHandlingNaN))
-			return dig(b, b2, fmt.Sprint(err))
+			b2, err2 := wkb.Marshal(a.g, wkb.XDR, wkbcommon.WKBOptionEmptyPointHandling(wkbcommon.EmptyPointHandlingNaN))
+			return dig(b, b2, errK(err), errK(err2))
 		}},
 		{"ewkb.Marshal", func(a *callArg) string {
 			b, err := ewkb.Marshal(a.g, ewkb.NDR)
-			b2, _ := ewkb.Marshal(a.g, ewkb.XDR)
-			return dig(b, b2, fmt.Sprint(err))
+			b2, err2 := ewkb.Marshal(a.g, ewkb.XDR)
+			return dig(b, b2, errK(err), errK(err2))
 		}},
 		{"hex.Encode", func(a *callArg) string {
 			s, err := wkbhex.Encode(a.g, wkb.NDR, wkbcommon.WKBOptionEmptyPointHandling(wkbcommon.EmptyPointHandlingNaN))
 			s2, err2 := ewkbhex.Encode(a.g, ewkb.XDR)
-			return dig(s, s2, fmt.Sprint(err, err2))
+			return dig(s, s2, errK(err), errK(err2))
 		}},
 		{"geojson.Marshal", func(a *callArg) string {
 			b, err := geojson.Marshal(a.g)
 			b2, err2 := geojson.Marshal(a.g, geojson.EncodeGeometryWithMaxDecimalDigits(1))
-			return dig(b, b2, fmt.Sprint(err, err2))
+			return dig(canonJSON(b), canonJSON(b2), errK(err), errK(err2))
 		}},
 		{"igc.Encode", func(a *callArg) string {
 			ls, ok := a.g.(*geom.LineString)
@@ -526,7 +636,7 @@ func callOps() []callOp {
 			}
 			var buf bytes.Buffer
 			err := igc.NewEncoder(&buf, igc.A("XXX")).Encode(ls)
-			return dig(buf.Bytes(), fmt.Sprint(err))
+			return dig(buf.Bytes(), errK(err))
 		}},
 		{"wkt.Unmarshal", func(a *callArg) string { return resGeom(wkt.Unmarshal(a.wktS)) }},
 		{"wkb.Unmarshal", func(a *callArg) string {
@@ -560,7 +670,7 @@ func callOps() []callOp {
 			b, _ := v.([]byte)
 			v2, err2 := (&ewkb.GeometryCollection{}).Value()
 			b2, _ := v2.([]byte)
-			return dig(b, b2, fmt.Sprint(err, err2))
+			return dig(b, b2, errK(err), errK(err2))
 		}},
 		// ------------------------------------------------------------------ further entry points (all documented as pure)
 		{"kml.Encode", func(a *callArg) string {
@@ -674,7 +784,7 @@ func callOps() []callOp {
 					return "err:" + errK(err)
 				}
 				b, err := json.Marshal(g)
-				return string(b) + errK(err)
+				return string(canonJSON(b)) + errK(err)
 			}
 			r1 := sub(func() any { return j(geojson.Encode(a.g)) })
 			r2 := sub(func() any { return j(geojson.Encode(a.g, geojson.EncodeGeometryWithBBox())) })
@@ -683,35 +793,44 @@ func callOps() []callOp {
 			})
 			r4 := sub(func() any {
 				b, err := geojson.Marshal(a.g, geojson.EncodeGeometryWithCRS(a.crs))
-				return string(b) + errK(err)
+				return string(canonJSON(b)) + errK(err)
 			})
 			return dig(r1, r2, r3, r4)
 		}},
 		{"geojson.Geometry.Decode", func(a *callArg) string {
 			r := resGeom(a.gjG.Decode())
 			b, err := json.Marshal(a.gjG)
-			return dig(r, b, errK(err))
+			return dig(r, canonJSON(b), errK(err))
 		}},
 		{"geojson.Feature.MarshalJSON", func(a *callArg) string {
 			b1, e1 := a.feat.MarshalJSON()
 			b2, e2 := json.Marshal(a.feat2)
-			return dig(b1, b2, errK(e1), errK(e2))
+			return dig(canonJSON(b1), canonJSON(b2), errK(e1), errK(e2))
 		}},
 		{"geojson.FeatureCollection.MarshalJSON", func(a *callArg) string {
 			b1, e1 := a.fc.MarshalJSON()
 			b2, e2 := (&geojson.FeatureCollection{}).MarshalJSON()
-			return dig(b1, b2, errK(e1), errK(e2))
+			return dig(canonJSON(b1), canonJSON(b2), errK(e1), errK(e2))
 		}},
 		{"geojson.Feature.UnmarshalJSON", func(a *callArg) string {
-			var f geojson.Feature // a fresh value per call: UnmarshalJSON fills its receiver
-			err := f.UnmarshalJSON(a.featB)
-			var f2 geojson.Feature
-			err2 := json.Unmarshal(a.featB, &f2)
-			return dig(featResult(&f), errK(err), featResult(&f2), errK(err2))
+			// a fresh value per call: UnmarshalJSON fills its receiver. After an error only the error class is recorded
+			// (what the receiver holds after a failed decode is left open)
+			dec := func(un func(f *geojson.Feature) error) string {
+				var f geojson.Feature
+				if err := un(&f); err != nil {
+					return "err:" + errK(err)
+				}
+				return featResult(&f)
+			}
+			return dig(dec(func(f *geojson.Feature) error { return f.UnmarshalJSON(a.featB) }),
+				dec(func(f *geojson.Feature) error { return json.Unmarshal(a.featB, f) }))
 		}},
 		{"geojson.FeatureCollection.UnmarshalJSON", func(a *callArg) string {
 			var fc geojson.FeatureCollection
 			err := fc.UnmarshalJSON(a.fcB)
+			if err != nil {
+				return "err:" + errK(err)
+			}
 			parts := []any{errK(err), deepDigest(fc.BBox), len(fc.Features)}
 			for _, f := range fc.Features {
 				parts = append(parts, featResult(f))
@@ -724,10 +843,6 @@ func callOps() []callOp {
 			s2, e2 := e.Encode(a.g)
 			s3, e3 := wkt.NewEncoder().Encode(a.g)
 			return dig(s1, s2, s3, errK(e1), errK(e2), errK(e3))
-		}},
-		{"wkt.Encoder-shared", func(a *callArg) string {
-			s, err := a.enc.Encode(a.g)
-			return dig(s, errK(err))
 		}},
 		{"Bounds.queries", func(a *callArg) string {
 			b, b2 := a.bnd, a.bnd2
@@ -1038,7 +1153,6 @@ func callArgs(seed int64) []*callArg {
 			return b
 		}).([]byte)
 		a.gjG, _ = sub(func() any { g, _ := geojson.Encode(t); return g }).(*geojson.Geometry)
-		a.enc = wkt.NewEncoder(wkt.EncodeOptionWithMaxDecimalDigits(4))
 		// a populated set (coordinates of its own)
 		a.tree = transform.NewTreeSet(geom.XY, hullCmp{})
 		own := append([]float64(nil), fc...)
